@@ -369,6 +369,18 @@ def obs_loaded_tree(tree):
     return [go(c) for c in (tree._root._children or [])], hashes
 
 
+def failed_load_facts(load):
+    """hash() and str() of the data objects a FAILING load created before it failed (facts of the run the model
+    needs for its uniqueness checks): the nodes allocated during `load()`, in creation order = entry order"""
+    base = H.alloc_count()
+    try:
+        load()
+    except Exception:  # noqa: BLE001
+        pass
+    nodes = [n for n in H._KEEP[base:] if getattr(n, "_parent", None) is not None]
+    return [(i + 1, hash(n._data)) for i, n in enumerate(nodes)], [(i + 1, f"{n._data}") for i, n in enumerate(nodes)]
+
+
 def loaded_names(tree):
     """(creation rank, str(data)) of every node of a loaded tree"""
     order = sorted(B.all_nodes(tree._root), key=H.nid)
